@@ -4,8 +4,13 @@ EXTENDS Colander, Json
 DiskOf(L) == [f \in DOMAIN L.files |-> [j \in DOMAIN L.files[f] |-> L.files[f][j].idx]]
 FileOf(L) == [b \in DOMAIN L.idx |-> L.fod[b].file]
 
+PosSetV == {PosIn(Names, vars[i]) : i \in DOMAIN vars}
+BlockUnordered == /\ Len(vars) >= 3 /\ Len(vars) < Len(Names)
+                  /\ (CHOOSE x \in PosSetV : \A y \in PosSetV : x >= y) - (CHOOSE x \in PosSetV : \A y \in PosSetV : x <= y) + 1 = Len(vars)
+                  /\ \E i, j \in DOMAIN vars : i < j /\ PosIn(Names, vars[i]) > PosIn(Names, vars[j])
 VarClass == IF vars = <<"all">> THEN "all"
             ELSE IF \E i \in DOMAIN vars : vars[i] \notin Rng(Names) THEN "unknown"
+            ELSE IF BlockUnordered THEN "block-out-of-order"
             ELSE IF \E i, j \in DOMAIN vars : i < j /\ PosIn(Names, vars[i]) > PosIn(Names, vars[j])
                  THEN (IF Len(vars) = Len(Names) THEN "permutation-of-every" ELSE "reordered")
             ELSE IF Len(vars) = Len(Names) THEN "every" ELSE "subset"
